@@ -93,7 +93,10 @@ func vpIndexOf(l []string, v string) int {
 	return -1
 }
 
-var vpKinds = [...]int64{0, 1, 5, 30000}
+// kinds are int64 and the middleware does not validate them: besides ordinary kinds the
+// set holds values that alias an ordinary one under a narrowing conversion (65537 = 1 mod
+// 2^16, 2^32+5 = 5 mod 2^32) and a negative one; each must be counted under its own label
+var vpKinds = [...]int64{0, 1, 5, 30000, 65537, 1<<32 + 5, -1}
 
 type vpFakeRegisterer struct{}
 
